@@ -15,7 +15,12 @@ EXPLANATION = (
     'Static decision of the structural necessary conditions of the pathway '
     'contract: (D1) no store reaches the caller\'s flux matrix in top_path, '
     'paths or the two removal schemes (each rebinds the parameter to a copy '
-    'before its first store; advanced-index reads are copies); (D2) the '
+    'before its first store; advanced-index reads are copies; (D1.views) no name '
+    'bound to a VIEW of the parameter - basic indexing by integer scalars / slices, '
+    '.T, .view(), np.asarray ..., the kind of an index decided three-valued from the '
+    'definitions of its components (an element popped from a list built from a '
+    'one-dimensional array is a scalar) - is updated in place while the parameter '
+    'still is the caller\'s object); (D2) the '
     'frontier node popped is argmax of min_fluxes over the queue, neighbours '
     'are the strictly positive entries of its row, the relaxation value is '
     'the edge flux clipped to the upstream bottleneck, a neighbour is updated '
@@ -23,7 +28,11 @@ EXPLANATION = (
     'written under the same index set, the reported flux is min_fluxes at the '
     'chosen (argmax) sink and the path is rebuilt by predecessor links '
     '(appended and returned reversed, or prepended and returned as built; the '
-    'loop may read the link once into a loop-carried name); a heapq frontier '
+    'loop may read the link once into a loop-carried name, or carry the head itself '
+    'in a name H with H = <prev>[H] and the new H appended in every iteration); an '
+    'index set with two definitions one of which is provably empty (len(X) == 0 on '
+    'its branch, or an empty constructor) is judged on the other one, and a guard '
+    '`len(<updated set>) > 0` around the update skips a no-op; a heapq frontier '
     'is accepted only if every improved node is pushed again with its new '
     'priority -bottleneck (no decrease-key); the search loop is cut short (and '
     'the relaxation skipped) only on tests of the finalised mask at the sinks, '
@@ -42,7 +51,9 @@ EXPLANATION = (
     'recorded paths> >= num_paths or <explained fraction> >= cutoff (counter '
     'from 0 by 1 or len of the result list; fraction from 0 by flux / source '
     'row sum; the exit may be a break or a loop flag `while f:` that is set '
-    'once per iteration with all later statements guarded by it), tested after recording and before the removal whose result '
+    'once per iteration with all later statements guarded by it, or a flag conjunct of the loop test that is only '
+    'cleared by statements after which nothing but pure branch tests runs before the loop header - such a clearing IS a break), '
+    'tested after recording and before the removal whose result '
     'replaces the working copy; a loop test `while <counter> < num_paths [and '
     '<fraction> < flux_cutoff]` is accepted in addition to those guards; '
     '(D4.limits.first-path) some test of num_paths is passed on every way from '
@@ -64,6 +75,7 @@ def check(ck):
     d4_paths(ck, mod, schemes)
     check_no_arg_mutation(ck, 'C17.D1.inputs-unmodified', [
         (PA, 'top_path'), (PA, 'paths'), (PA, '_remove_bottleneck'), (PA, '_subtract_path_flux')])
+    d1_views(ck, mod, [('top_path', 2), ('paths', 2), ('_remove_bottleneck', 0), ('_subtract_path_flux', 0)])
     return EXPLANATION
 
 
@@ -178,6 +190,18 @@ def d2_top_path(ck, mod):
     row = ['%s[%s, :]' % (nf, TN), '%s[%s]' % (nf, TN)]
     nb_forms = ['np.where(0 < %s)[0]' % r for r in row] + ['np.nonzero(0 < %s)[0]' % r for r in row]
     idx = canon(fi.expand(ut.slice, strict=False))
+    val_src = us.value
+    upd_names = set()
+    if isinstance(idx, ast.Name) and isinstance(ut.slice, ast.Name):
+        # the index set is a name with two definitions, one of which is provably EMPTY (stores / extends with an empty index
+        # set are no-ops): the update is decided on the other definition
+        live = _nonempty_def(mod, fi, ut.slice, loop)
+        if live is not None:
+            site, lv = live
+            upd_names.add(ut.slice.id)
+            idx = canon(fi.expand(lv, strict=False))
+            if isinstance(us.value, ast.Name) and fi.defs_of_use(us.value) == fi.defs_of_use(ut.slice) and fi.def_value(site, us.value.id) is not None:
+                val_src = fi.def_value(site, us.value.id)
     if not isinstance(idx, ast.Subscript):
         ck.missing(rule + '.neighbors', 'index of the bottleneck update is not <neighbours>[<selection>]: %s' % u(idx)[:120])
         return
@@ -191,10 +215,10 @@ def d2_top_path(ck, mod):
     if v[0] != 'match':
         return
     NBX = u(canon(idx.value))                       # canonical text of the neighbour index set
-    _reach(ck, mod, fi, rule, F, loop, us, NBX, V, sinks, MF, TN)
+    _reach(ck, mod, fi, rule, F, loop, us, NBX, V, sinks, MF, TN, upd={fi.xu(ut.slice, strict=False), u(idx)} | upd_names)
     sel = v[1]['_SEL']
     # the relaxed values: `<val>` = NF[<sel>] where NF is the clipped edge-flux array
-    val = fi.expand(us.value, strict=False)
+    val = fi.expand(val_src, strict=False)
     if not (isinstance(val, ast.Subscript) and isinstance(val.value, ast.Name) and u(canon(val.slice)) == u(canon(sel))):
         ck.missing(rule + '.update', 'value stored into %s is not <relaxed fluxes>[<same selection>]: %s' % (MF, u(val)[:120]))
         return
@@ -282,6 +306,50 @@ def d2_top_path(ck, mod):
     _report(ck, mod, fn, fi, loop, r[0], rp, rf, sinks, MF, PN)
 
 
+_EMPTY_ARRAYS = ('np.array([])', '[]', 'np.empty(0)', 'np.zeros(0)', 'np.array([], dtype=int)', 'np.empty(0, dtype=int)', 'np.zeros(0, dtype=int)',
+                 'np.array((), dtype=int)', 'np.array(())')
+
+
+def _nonempty_def(mod, fi, name_node, within):
+    """A Name use reached by exactly two plain definitions one of which binds a provably EMPTY array / list: its
+    value is an empty constructor, or it is the expression X itself bound under a branch condition that says
+    len(X) == 0 (X.size == 0, not len(X) ...).  Returns (site, value expression) of the OTHER definition - the
+    only one under which an index set / extension by that name is not a no-op - else None."""
+    try:
+        defs = list(fi.defs_of_use(name_node))
+    except Exception:
+        return None
+    if len(defs) != 2 or any(d in ('PARAM', 'UNBOUND') or not isinstance(d, ast.Assign) for d in defs):
+        return None
+    empties = {C(t) for t in _EMPTY_ARRAYS}
+
+    def is_empty(site):
+        v = fi.def_value(site, name_node.id)
+        if v is None:
+            return False
+        if u(canon(v)) in empties:
+            return True
+        vx = fi.xu(v, strict=False)
+        sizes = {'len(%s)' % vx, '%s.size' % vx, '%s.shape[0]' % vx}
+        for a in _assumes(fi, mod, site, within):
+            for at in conjuncts(a.test, a.polarity) or []:
+                if isinstance(at, Cmp):
+                    l, r = fi.xu(at.lhs, strict=False), fi.xu(at.rhs, strict=False)
+                    c = at if l in sizes else at.flipped() if r in sizes else None
+                    k = const_value(c.rhs) if c is not None else None
+                    if c is not None and type(k) is int and ((c.op in (ast.Eq, ast.LtE) and k == 0) or (c.op is ast.Lt and k == 1)):
+                        return True
+                elif not at[2] and fi.xu(at[1], strict=False) in sizes:
+                    return True
+        return False
+    flags = [is_empty(d) for d in defs]
+    if flags.count(True) != 1:
+        return None
+    live = defs[flags.index(False)]
+    v = fi.def_value(live, name_node.id)
+    return (live, v) if v is not None else None
+
+
 def _assumes(fi, mod, stmt, within=None):
     """Branch conditions known to hold whenever `stmt` executes: the synthetic
     Assume nodes of the CFG that dominate it (insensitive to guard-clause vs
@@ -289,13 +357,16 @@ def _assumes(fi, mod, stmt, within=None):
     return [a for a in fi.cfg.dom.get(stmt, ()) if isinstance(a, Assume) and (within is None or _inside(mod, a.owner, within))]
 
 
-def _reach(ck, mod, fi, rule, F, loop, us, NBX, V, sinks, MF=None, TN=None):
+def _reach(ck, mod, fi, rule, F, loop, us, NBX, V, sinks, MF=None, TN=None, upd=()):
     """The relaxation `us` must run for every popped node that has neighbours,
     as long as some sink is not finalised: every branch condition it depends
     on inside the search loop must be one of these two (in any spelling /
     nesting); the opposite condition is a violation."""
     sink_done = {C('%s[%s].all()' % (V, sinks)), C('%s[%s].any()' % (V, sinks)), C('all(%s[%s])' % (V, sinks)), C('any(%s[%s])' % (V, sinks))}
     count = {'len(%s)' % NBX, '%s.size' % NBX, '%s.shape[0]' % NBX}
+    # (the set of nodes that ARE updated: skipping the update when it is empty skips a no-op)
+    for x in upd:
+        count |= {'len(%s)' % x, '%s.size' % x, '%s.shape[0]' % x}
     # the tentative labels: the bottleneck array and every array that records the expanded node (predecessor links)
     labels = {MF} if MF else set()
     if TN:
@@ -482,7 +553,7 @@ def _report(ck, mod, fn, fi, loop, ret, rp, rf, sinks, MF, PN):
                  'np.flip(np.array(_P))']
     fwd_forms = ['np.array(_P)', 'np.asarray(_P)', 'np.array(list(_P))']
     rpx = fi.expand(rp)
-    vr, vf = classify(rpx, rev_forms, near=3), classify(rpx, fwd_forms, near=1)
+    vr, vf = classify(rpx, rev_forms, near=2), classify(rpx, fwd_forms, near=1)
     vb = vr if vr[0] == 'match' else vf
     if vb[0] != 'match' or not isinstance(vb[1]['_P'], ast.Name):
         ck.decide(vr if vr[0] != 'match' else 'far', rule + '.report', mod, ret, F, u(ret), '',
@@ -536,7 +607,24 @@ def _report(ck, mod, fn, fi, loop, ret, rp, rf, sinks, MF, PN):
               'the reported flux must be min_fluxes at the chosen sink (the sink end of the path list)')
     # loop test and pushed value: both must be the predecessor link of the current head
     test = pexpand(fi, b.test)
-    vt = classify(test, ['_PN[%s] != -1' % head, '-1 != _PN[%s]' % head, '0 <= _PN[%s]' % head, '-1 < _PN[%s]' % head], scope={P} | ({PN} if PN else set()))
+
+    def test_forms(h):
+        return ['_PN[%s] != -1' % h, '-1 != _PN[%s]' % h, '0 <= _PN[%s]' % h, '-1 < _PN[%s]' % h]
+    vt = classify(test, test_forms(head), scope={P} | ({PN} if PN else set()))
+    if vt[0] != 'match':
+        # the walking head may be a loop-carried NAME that equals <list>[head position] at every loop test
+        ch = _carried_head(mod, fi, b, P, gs, garg, first_expr, first_at, sinks, test_forms)
+        if ch is not None:
+            PNb, H, step = ch
+            if PN is not None and PNb != PN:
+                ck.bad(rule + '.report', mod, b, F, u(b.test), 'the back-trace follows `%s` but the search records predecessors in `%s`' % (PNb, PN))
+                return
+            if [s for s in fi._mutated_in_place(PNb) if _inside(mod, s, b)]:
+                ck.missing(rule + '.report', 'the predecessor array %s is modified inside the back-trace loop' % PNb)
+                return
+            ck.ok(rule + '.report', mod, b, u(b.test), 'back-trace runs until the head `%s` (= %s at every test) has no predecessor (sentinel -1)' % (H, head))
+            ck.ok(rule + '.report', mod, step, u(step), 'path rebuilt by following predecessor links to a source: the head moves to its predecessor, which is added to the list')
+            return
     if vt[0] != 'match' or not isinstance(vt[1]['_PN'], ast.Name):
         ck.decide(vt if vt[0] != 'match' else 'far', rule + '.report', mod, b, F, u(b.test), '',
                   'the back-trace must run while the predecessor of the current head (%s) is not the sentinel -1' % head)
@@ -556,6 +644,56 @@ def _report(ck, mod, fn, fi, loop, ret, rp, rf, sinks, MF, PN):
     # the pushed value is the link that was tested: no step in between may move the head
     if vg[0] == 'match' and not _every_iteration(mod, gs, b):
         ck.missing(rule + '.report', 'the growth step `%s` is conditional inside the back-trace loop' % u(gs))
+
+
+def _carried_head(mod, fi, b, P, gs, garg, first_expr, first_at, sinks, test_forms):
+    """Back-trace whose walking head is a loop-carried name H instead of <list>[-1] / <list>[0]:
+
+        H = <first element of the list>            (before the loop)
+        while <prev>[H] != -1:
+            H = <prev>[H]; <list>.append(H)        (or: <list>.append(<prev>[H]); H = <prev>[H])
+
+    Invariant at every evaluation of the loop test: H is the element added last (the head of the list), because
+    H has exactly these two definitions, both steps are unconditional top-level statements of the body, and the
+    element added in an iteration is the new H.  Returns (<prev> name, H, step statement) or None."""
+    from ..match import match
+    hit = None
+    for f in test_forms('_H'):
+        bd = match(f, b.test)
+        if bd is not None and isinstance(bd.get('_H'), ast.Name) and isinstance(bd.get('_PN'), ast.Name):
+            hit = bd
+            break
+    if hit is None:
+        return None
+    H, PNb = hit['_H'].id, hit['_PN'].id
+    Hn = [n for n in walk_expr(b.test) if isinstance(n, ast.Name) and n.id == H][0]      # (match() binds canonical copies)
+    if H in (P, PNb) or fi._mutated_in_place(H):
+        return None
+    defs = fi.defs_of_use(Hn)
+    inner = [s for s in assigns_to(b, H)]
+    if len(defs) != 2 or len(inner) != 1 or inner[0] not in defs:
+        return None
+    step = inner[0]
+    init = [d for d in defs if d is not step][0]
+    if init in ('PARAM', 'UNBOUND') or not isinstance(init, ast.Assign) or _inside(mod, init, b) or not fi.cfg.dominates(init, b):
+        return None
+    v0 = fi.def_value(init, H)
+    if v0 is None or fi.xu(v0, stop=(sinks,)) != fi.xu(first_expr, stop=(sinks,)):
+        return None
+    if not (isinstance(step, ast.Assign) and len(step.targets) == 1 and isinstance(step.targets[0], ast.Name)):
+        return None
+    link = ['%s[%s]' % (PNb, H), 'int(%s[%s])' % (PNb, H)]
+    if classify(step.value, link)[0] != 'match':
+        return None
+    if step not in b.body or gs not in b.body or not _every_iteration(mod, step, b) or not _every_iteration(mod, gs, b) or b.orelse:
+        return None
+    i_step, i_gs = b.body.index(step), b.body.index(gs)
+    if i_step < i_gs:
+        ok = isinstance(garg, ast.Name) and garg.id == H or (
+            isinstance(garg, ast.Call) and call_name(garg) == 'int' and len(garg.args) == 1 and isinstance(garg.args[0], ast.Name) and garg.args[0].id == H)
+    else:
+        ok = classify(garg, link)[0] == 'match'
+    return (PNb, H, step) if ok else None
 
 
 def _every_iteration(mod, stmt, loop):
@@ -692,6 +830,287 @@ def _and_atoms(mask):
     if isinstance(mask, ast.Call) and call_name(mask) == 'np.logical_and' and len(mask.args) == 2:
         return _and_atoms(mask.args[0]) + _and_atoms(mask.args[1])
     return [mask]
+
+
+# ---------------------------------------------------------------------------
+# D1 (views): a store through a NAME that is a basic-index view of the caller's matrix
+
+_INDEX_ARRAY_CALLS = {'np.where', 'np.nonzero', 'np.arange', 'np.array', 'np.asarray', 'list', 'range', 'np.ix_', 'np.unique', 'np.argsort',
+                      'np.isnan', 'np.isinf', 'np.isfinite', 'np.isclose', 'np.logical_not', 'np.logical_and', 'np.logical_or', 'np.zeros', 'np.ones'}
+_SURE_VIEW_METHODS = {'view', 'transpose', 'swapaxes', 'diagonal', 'squeeze'}
+_MAYBE_VIEW_METHODS = {'reshape', 'ravel'}
+_SURE_VIEW_FUNCS = {'np.asarray', 'np.asanyarray', 'np.transpose', 'np.squeeze', 'np.swapaxes', 'np.diagonal', 'np.atleast_1d', 'np.atleast_2d'}
+_MAYBE_VIEW_FUNCS = {'np.ravel', 'np.reshape', 'np.ascontiguousarray', 'np.asfortranarray'}
+
+
+def _def_values(fi, n):
+    """Value expressions of ALL definitions reaching the Name use `n` (plain assignments only), else None."""
+    try:
+        defs = fi.defs_of_use(n)
+    except Exception:
+        return None
+    out = []
+    for d in defs:
+        if d in ('PARAM', 'UNBOUND') or not isinstance(d, (ast.Assign, ast.AnnAssign)):
+            return None
+        v = fi.def_value(d, n.id)
+        if v is None:
+            return None
+        out.append(v)
+    return out or None
+
+
+def _mask_like(fi, e, depth=4):
+    """Index expression that selects elements of a 1-D array into a 1-D array: a boolean mask or the tuple np.where(mask)."""
+    if isinstance(e, ast.Name):
+        vs = _def_values(fi, e) if depth > 0 else None
+        return bool(vs) and all(_mask_like(fi, v, depth - 1) for v in vs)
+    if isinstance(e, ast.Compare) or (isinstance(e, ast.BinOp) and isinstance(e.op, (ast.BitAnd, ast.BitOr))) \
+            or (isinstance(e, ast.UnaryOp) and isinstance(e.op, ast.Invert)):
+        return True
+    return isinstance(e, ast.Call) and call_name(e) in ('np.where', 'np.nonzero') and len(e.args) == 1
+
+
+def _one_dim(fi, e, depth=4):
+    """The expression is a one-dimensional array by construction (True) - anything else False."""
+    if isinstance(e, ast.Name):
+        vs = _def_values(fi, e) if depth > 0 else None
+        return bool(vs) and all(_one_dim(fi, v, depth - 1) for v in vs)
+    if isinstance(e, ast.Call) and isinstance(e.func, ast.Attribute):
+        if e.func.attr in ('flatten', 'ravel') and not e.args:
+            return True
+        if e.func.attr == 'reshape' and len(e.args) == 1:
+            a = e.args[0]
+            a = a.elts[0] if isinstance(a, (ast.Tuple, ast.List)) and len(a.elts) == 1 else a
+            return const_value(a) == -1
+    if isinstance(e, ast.Subscript):
+        if isinstance(e.value, ast.Call) and call_name(e.value) in ('np.where', 'np.nonzero') and type(const_value(e.slice)) is int:
+            return True
+        return _one_dim(fi, e.value, depth - 1) and _mask_like(fi, e.slice, depth)
+    return False
+
+
+def _node_list(fi, n, depth=3):
+    """The Name use `n` denotes a Python list whose elements are scalars: every reaching definition builds it from a
+    one-dimensional array (list(S), S.tolist(), [x for x in S]) or as an empty list, and it only grows by scalars /
+    one-dimensional arrays."""
+    vs = _def_values(fi, n) if depth > 0 else None
+    if not vs:
+        return False
+    for v in vs:
+        if isinstance(v, ast.List) and not v.elts:
+            continue
+        if isinstance(v, ast.Call) and call_name(v) == 'list' and len(v.args) <= 1 and not v.keywords:
+            if not v.args or _one_dim(fi, v.args[0]):
+                continue
+        if isinstance(v, ast.Call) and isinstance(v.func, ast.Attribute) and v.func.attr == 'tolist' and _one_dim(fi, v.func.value):
+            continue
+        if isinstance(v, ast.ListComp) and len(v.generators) == 1 and not v.generators[0].ifs and isinstance(v.generators[0].target, ast.Name) \
+                and _one_dim(fi, v.generators[0].iter):
+            el, t = v.elt, v.generators[0].target.id
+            if isinstance(el, ast.Call) and call_name(el) == 'int' and len(el.args) == 1:
+                el = el.args[0]
+            if isinstance(el, ast.Name) and el.id == t:
+                continue
+        return False
+    for s in fi._mutated_in_place(n.id):
+        calls = [c for c in ast.walk(s) if isinstance(c, ast.Call) and isinstance(c.func, ast.Attribute) and isinstance(c.func.value, ast.Name)
+                 and c.func.value.id == n.id]
+        stores = [t for t in ast.walk(s) if isinstance(t, ast.Subscript) and isinstance(t.ctx, (ast.Store, ast.Del)) and isinstance(t.value, ast.Name)
+                  and t.value.id == n.id]
+        if stores or not calls:
+            return False
+        for c in calls:
+            if c.func.attr in ('pop', 'remove', 'index', 'count', 'sort', 'reverse', 'clear'):
+                continue
+            if c.func.attr == 'extend' and len(c.args) == 1 and _one_dim(fi, c.args[0]):
+                continue
+            if c.func.attr == 'append' and len(c.args) == 1 and _scalar(fi, c.args[0], depth - 1) is True:
+                continue
+            return False
+    return True
+
+
+def _scalar(fi, e, depth=4):
+    """Three-valued: True = an integer SCALAR (basic index), False = an array / sequence / mask (advanced index), None = unknown."""
+    if isinstance(e, ast.Constant):
+        return True if type(e.value) is int else None
+    if isinstance(e, ast.UnaryOp) and isinstance(e.op, (ast.USub, ast.UAdd)):
+        return _scalar(fi, e.operand, depth)
+    if isinstance(e, (ast.Compare, ast.List, ast.ListComp, ast.BoolOp)) or (isinstance(e, ast.UnaryOp) and isinstance(e.op, ast.Invert)):
+        return False
+    if isinstance(e, ast.BinOp):
+        if isinstance(e.op, (ast.BitAnd, ast.BitOr)):
+            return False
+        a, b = _scalar(fi, e.left, depth), _scalar(fi, e.right, depth)
+        return True if a is True and b is True else False if a is False or b is False else None
+    if isinstance(e, ast.Name):
+        if depth <= 0:
+            return None
+        vs = _def_values(fi, e)
+        if not vs:
+            return None
+        ks = [_scalar(fi, v, depth - 1) for v in vs]
+        return True if all(k is True for k in ks) else False if all(k is False for k in ks) else None
+    if isinstance(e, ast.Call):
+        cn = call_name(e) or ''
+        if cn in ('int', 'len') and len(e.args) == 1:
+            return True
+        if cn in _INDEX_ARRAY_CALLS:
+            return False
+        if isinstance(e.func, ast.Attribute):
+            if e.func.attr in ('argmax', 'argmin') and not e.args and not e.keywords:
+                return True
+            if e.func.attr == 'item':
+                return True
+            if e.func.attr == 'pop' and isinstance(e.func.value, ast.Name):
+                return True if _node_list(fi, e.func.value, depth - 1) else None
+            if e.func.attr in ('flatten', 'ravel', 'astype', 'copy', 'tolist', 'nonzero'):
+                return False if e.func.attr in ('flatten', 'ravel', 'tolist', 'nonzero') else _scalar(fi, e.func.value, depth)
+        return None
+    if isinstance(e, ast.Subscript):
+        if isinstance(e.value, ast.Call) and call_name(e.value) in ('np.where', 'np.nonzero') and type(const_value(e.slice)) is int:
+            return False
+        if isinstance(e.slice, ast.Slice):
+            return False
+        if isinstance(e.value, ast.Name) and _scalar(fi, e.slice, depth - 1) is True and (_node_list(fi, e.value, depth - 1) or _one_dim(fi, e.value, depth - 1)):
+            return True
+        return None
+    return None
+
+
+def _index_kind(fi, idx):
+    """-> ('basic' | 'advanced' | 'unknown', number of scalar components, number of components)"""
+    comps = idx.elts if isinstance(idx, ast.Tuple) else [idx]
+    kinds, nsc = [], 0
+    for c in comps:
+        if isinstance(c, ast.Slice) or (isinstance(c, ast.Constant) and (c.value is None or c.value is Ellipsis)):
+            kinds.append('basic')
+            continue
+        k = _scalar(fi, c)
+        kinds.append('basic' if k is True else 'advanced' if k is False else 'unknown')
+        nsc += k is True
+    kind = 'advanced' if 'advanced' in kinds else 'unknown' if 'unknown' in kinds else 'basic'
+    return kind, nsc, len(comps)
+
+
+def d1_views(ck, mod, entries):
+    """NECESSARY CONDITION (caller's matrix unchanged): basic indexing (integer scalars / slices), `.T`, `.view()`,
+    `np.asarray` ... hand out the STORAGE of the matrix; a name bound to such an expression over the parameter - while the
+    parameter still is the caller's object - is the caller's matrix, and every in-place update of that name (subscript
+    store, `op=`, fill ...) writes into the argument.  An advanced index (index arrays, masks) makes a copy.  The kind of
+    an index is decided from the definitions of its components (three-valued): proven basic -> VIOLATION, not decided ->
+    analysis incomplete, advanced -> nothing to show."""
+    rule = 'C17.D1.inputs-unmodified.views'
+    order = {None: 0, 'maybe': 1, 'view': 2}
+    for qual, pos in entries:
+        fn = mod.func(qual)
+        fi = finfo(mod, fn)
+        ps = params(fn)
+        if pos >= len(ps):
+            ck.missing(rule, '%s: matrix parameter #%d' % (qual, pos))
+            continue
+        P = ps[pos]
+        aliases = {}                # (definition site, name) -> (('view' | 'maybe', remaining dimensions or None), text of the defining expression)
+
+        def join(vals):
+            vals = [v for v in vals if v is not None]
+            if not vals:
+                return None
+            k = max((v[0] for v in vals), key=lambda x: order[x])
+            nds = {v[1] for v in vals}
+            return (k, nds.pop() if len(nds) == 1 else None)
+
+        def kind_of(e):
+            """(kind, number of array dimensions left or None if unknown) if the value of e may share storage with the
+            caller's two-dimensional matrix, None if it is fresh storage / a scalar element"""
+            if isinstance(e, ast.Name):
+                try:
+                    defs = fi.defs_of_use(e)
+                except Exception:
+                    return None
+                return join([('view', 2) if (d == 'PARAM' and e.id == P) else aliases.get((d, e.id), (None,))[0] for d in defs])
+            if isinstance(e, ast.Attribute):
+                return kind_of(e.value) if e.attr in ('T', 'real', 'imag') else None
+            if isinstance(e, ast.IfExp):
+                return join([kind_of(e.body), kind_of(e.orelse)])
+            if isinstance(e, ast.Subscript):
+                kv = kind_of(e.value)
+                if kv is None:
+                    return None
+                k, nd = kv
+                ik, nsc, ncomp = _index_kind(fi, e.slice)
+                if ik == 'advanced':
+                    return None                              # advanced indexing copies
+                if ik == 'unknown':
+                    return ('maybe', None)
+                comps = e.slice.elts if isinstance(e.slice, ast.Tuple) else [e.slice]
+                if any(isinstance(c, ast.Constant) and c.value is None for c in comps):
+                    nd = None
+                nd = nd - nsc if nd is not None else None
+                if nd is not None and nd <= 0:
+                    return None                              # one scalar element
+                return (k, nd)
+            if isinstance(e, ast.Call):
+                cn = call_name(e) or ''
+                if isinstance(e.func, ast.Attribute) and e.func.attr in _SURE_VIEW_METHODS | _MAYBE_VIEW_METHODS:
+                    kv = kind_of(e.func.value)
+                    if kv is not None:
+                        sure = e.func.attr in _SURE_VIEW_METHODS
+                        return (kv[0] if sure else 'maybe', kv[1] if e.func.attr in ('view', 'transpose', 'swapaxes') else None)
+                if cn in _SURE_VIEW_FUNCS | _MAYBE_VIEW_FUNCS and e.args:
+                    kv = kind_of(e.args[0])
+                    if kv is not None:
+                        sure = cn in _SURE_VIEW_FUNCS and len(e.args) == 1 and not e.keywords
+                        return (kv[0] if sure else 'maybe', kv[1] if cn in ('np.asarray', 'np.asanyarray', 'np.transpose') and sure else None)
+                return None
+            return None
+        for _round in range(4):
+            changed = False
+            for s in walk_local(fn):
+                pairs = []
+                if isinstance(s, ast.Assign):
+                    for t in s.targets:
+                        if isinstance(t, ast.Name):
+                            pairs.append((t.id, s.value))
+                        elif isinstance(t, (ast.Tuple, ast.List)) and isinstance(s.value, (ast.Tuple, ast.List)) and len(t.elts) == len(s.value.elts):
+                            pairs += [(te.id, ve) for te, ve in zip(t.elts, s.value.elts) if isinstance(te, ast.Name)]
+                elif isinstance(s, ast.For) and isinstance(s.target, ast.Name):
+                    kv = kind_of(s.iter)                    # iterating over the matrix yields its rows (views)
+                    if kv is not None:
+                        kv = (kv[0], kv[1] - 1) if kv[1] is not None else ('maybe', None)
+                        if (kv[1] is None or kv[1] > 0) and aliases.get((s, s.target.id), (None,))[0] != kv:
+                            aliases[(s, s.target.id)] = (kv, 'for %s in %s' % (s.target.id, u(s.iter)))
+                            changed = True
+                for name, val in pairs:
+                    kv = kind_of(val)
+                    if name == P and isinstance(val, ast.Name) and val.id == P:
+                        continue
+                    if kv is not None and aliases.get((s, name), (None,))[0] != kv:
+                        aliases[(s, name)] = (kv, u(val))
+                        changed = True
+            if not changed:
+                break
+        found = False
+        for (site, T), ((k, nd), text) in sorted(aliases.items(), key=lambda kv: getattr(kv[0][0], 'lineno', 0)):
+            muts = list(fi._mutated_in_place(T))
+            muts += [s for s in walk_local(fn) if isinstance(s, ast.AugAssign) and isinstance(s.target, ast.Name) and s.target.id == T and s not in muts]
+            for s in muts:
+                if site not in fi.rd.defs_at(s, T):
+                    continue
+                found = True
+                bare = isinstance(s, ast.AugAssign) and isinstance(s.target, ast.Name)       # `T op= v` rebinds T if T is a scalar
+                if k == 'view' and not (bare and nd is None):
+                    ck.bad(rule, mod, s, qual, u(s)[:160],
+                           '`%s` is bound to `%s` (line %s), which shares the storage of the caller\'s matrix `%s` (basic indexing / a view-making '
+                           'operation of the parameter, which has not been rebound to a copy there): the in-place update `%s` writes into the '
+                           'argument; work on a copy (an advanced index such as %s[i, <index array>], or .copy())' % (
+                               T, text[:80], getattr(site, 'lineno', '?'), P, u(s)[:80], P))
+                else:
+                    ck.missing(rule, '%s: `%s` updates `%s` = `%s` in place; whether that expression is a view of the caller\'s matrix `%s` '
+                               '(basic index) or a copy (advanced index) is not decided' % (qual, u(s)[:60], T, text[:60], P))
+        if not found:
+            ck.ok(rule, mod, fn, '%s(%s)' % (qual, P), 'no name that may be a view of the caller\'s matrix is updated in place (%d view name(s))' % len(aliases))
 
 
 # ---------------------------------------------------------------------------
@@ -1049,14 +1468,68 @@ def _loop_of(mod, node, fn):
     return None
 
 
-def _break_polarity(g):
-    """True if the body of `if` g leaves the loop (break as a top-level statement
-    of the body), False if the else branch does, None otherwise."""
-    if any(isinstance(x, ast.Break) for x in g.body):
+def _break_polarity(g, clears=()):
+    """True if the body of `if` g leaves the loop (break - or a flag assignment that is equivalent to a break, see
+    _flag_breaks - as a top-level statement of the body), False if the else branch does, None otherwise."""
+    if any(isinstance(x, ast.Break) or x in clears for x in g.body):
         return True
-    if any(isinstance(x, ast.Break) for x in g.orelse):
+    if any(isinstance(x, ast.Break) or x in clears for x in g.orelse):
         return False
     return None
+
+
+def _flag_breaks(mod, fn, fi, loop):
+    """`while FLAG and <rest>:` where the flag plays the part of `break`: FLAG is a positive conjunct of the loop test,
+    it is a truthy constant when the loop is entered, and inside the loop it is only ever assigned a falsy constant by
+    statements after which NOTHING is executed before control is back at the loop header (only pure branch tests lie
+    in between).  Such an assignment leaves the loop exactly like `break` (the header test fails on FLAG without
+    evaluating the conjuncts to its right; conjuncts to its left are pure tests).  On iterations on which it is not executed
+    FLAG is true and the header test is <rest>.  Returns (FLAG, [clearing statements], [remaining conjunct
+    expressions]) or None."""
+    from ..normal import is_pure
+    if loop.orelse or not is_pure(loop.test):
+        return None
+    t = loop.test
+    vals = t.values if isinstance(t, ast.BoolOp) and isinstance(t.op, ast.And) else [t]
+    for cand in vals:
+        if not isinstance(cand, ast.Name):
+            continue
+        FLAG = cand.id
+        inner = [s for s in assigns_to(loop, FLAG)]
+        if not inner or fi._mutated_in_place(FLAG):
+            continue
+        outer = [d for d in fi.defs_of_use(cand) if d not in inner]
+        if len(outer) != 1 or not isinstance(outer[0], ast.Assign) or _inside(mod, outer[0], loop) or not (
+                len(outer[0].targets) == 1 and isinstance(outer[0].targets[0], ast.Name)) or const_value(outer[0].value) not in (True, 1):
+            continue
+        good = True
+        for s in inner:
+            if not (isinstance(s, ast.Assign) and len(s.targets) == 1 and isinstance(s.targets[0], ast.Name) and const_value(s.value, 'x') in (False, 0)
+                    and const_value(s.value, 'x') is not None and _loop_of(mod, s, fn) is loop):
+                good = False
+                break
+            seen, work = set(), list(fi.cfg.succ.get(s, []))
+            while work and good:
+                n = work.pop()
+                if n is loop or id(n) in seen:
+                    continue
+                seen.add(id(n))
+                if isinstance(n, Assume) or isinstance(n, ast.Pass) or (isinstance(n, ast.If) and is_pure(n.test)):
+                    work += fi.cfg.succ.get(n, [])
+                else:
+                    good = False
+            if not good:
+                break
+        if good:
+            return FLAG, inner, [v for v in vals if v is not cand]
+    return None
+
+
+def _after_guard(mod, cfg, g, s):
+    """Statement s is executed only after the exit test of guard g was taken with the CONTINUING outcome: the test
+    dominates s and s does not sit on the leaving side (if/else and guard-clause spellings alike)."""
+    return cfg.dominates(g.node, s) and not any(s is x or _inside(mod, s, x) for x in g.leave) and (
+        not _inside(mod, s, g.node) or isinstance(g.node, ast.If) and any(s is x or _inside(mod, s, x) for x in (g.node.orelse if g.pol else g.node.body)))
 
 
 class _Guard:
@@ -1111,14 +1584,17 @@ def _fold_const(e):
     return None
 
 
-def _header_limits(fi, loop, npaths, cutoff):
+def _header_limits(fi, loop, npaths, cutoff, tests=None):
     """`while <q1> < num_paths [and <q2> < flux_cutoff]:` - the loop test as a list of (kind, Cmp) continue
     conditions, every one an ordering test against one of the two limit parameters; None if the test has
     any other shape."""
     if loop.orelse:
         return None
     out = []
-    for a in conjuncts(loop.test, True) or [None]:
+    atoms = []
+    for t in ([loop.test] if tests is None else tests):
+        atoms += conjuncts(t, True) or [None]
+    for a in atoms or [None]:
         if not isinstance(a, Cmp) or a.as_less() is None:
             return None
         sides = (fi.xu(a.lhs), fi.xu(a.rhs))
@@ -1169,11 +1645,16 @@ def d4_paths(ck, mod, schemes=None):
     vs = classify(ast.Tuple(elts=[fi.expand(amap[tpp[0]], stop=(sources, sinks, W)), fi.expand(amap[tpp[1]], stop=(sources, sinks, W))], ctx=ast.Load()),
                   ['(%s, %s)' % (sources, sinks)], scope={sources, sinks, W, nf})
     ck.decide(vs, rule + '.search', mod, tps, F, u(tps), 'the search runs from the sources to the sinks', 'top_path must be called with (sources, sinks, <working matrix>)')
-    flag, header = None, []
+    flag, header, clears = None, [], []
     if fi.xu(loop.test) not in ('True', '1'):
         flag = _flag_exit(mod, fn, fi, loop)
         if flag is None:
-            header = _header_limits(fi, loop, npaths, cutoff)
+            fb = _flag_breaks(mod, fn, fi, loop)
+            if fb is not None:
+                clears = fb[1]
+                header = _header_limits(fi, loop, npaths, cutoff, tests=fb[2]) if fb[2] else []
+            else:
+                header = _header_limits(fi, loop, npaths, cutoff)
         if flag is None and header is None:
             ck.missing(rule + '.loop', 'loop condition `%s` of the path loop is neither constant, nor a flag that is set once per iteration with everything '
                        'after it guarded by the flag, nor a conjunction of tests of num_paths / flux_cutoff: exits through the loop test are not modelled' % u(loop.test))
@@ -1291,9 +1772,9 @@ def d4_paths(ck, mod, schemes=None):
 
     # ---- guards that leave the loop
     guards = []
-    exits = [x for x in walk_local(loop) if isinstance(x, (ast.Break, ast.Continue, ast.Return, ast.Raise))]
+    exits = [x for x in walk_local(loop) if isinstance(x, (ast.Break, ast.Continue, ast.Return, ast.Raise))] + list(clears)
     for g in [x for x in walk_local(loop) if isinstance(x, ast.If) and _loop_of(mod, x, fn) is loop]:
-        pol = _break_polarity(g)
+        pol = _break_polarity(g, clears)
         if pol is None:
             continue
         branch = g.body if pol else g.orelse
@@ -1358,7 +1839,7 @@ def d4_paths(ck, mod, schemes=None):
         ck.bad(rule + '.no-path', mod, g.node, F, u(g.test), 'the loop goes on only when the flux IS infinite (no path found) and stops as soon as a real path is found')
     if atoms['nopath_inv']:
         return
-    early = [(g, a) for g, a in atoms['nopath'] if cfg.dominates(tps, g.node) and all(cfg.dominates(g.node, s) and not _inside(mod, s, g.node) for s in rec)]
+    early = [(g, a) for g, a in atoms['nopath'] if cfg.dominates(tps, g.node) and all(_after_guard(mod, cfg, g, s) for s in rec)]
     if early:
         ck.ok(rule + '.no-path', mod, early[0][0].node, u(early[0][0].test), 'stop (without recording) when no source->sink path is left')
     elif atoms['nopath']:
@@ -1505,7 +1986,7 @@ def d4_paths(ck, mod, schemes=None):
     # advance only after a recording, so a test that comes after the recording cannot stop the first path.
     if lc is not None:
         g0, q0 = lc
-        pre = 'count' in head_ok or any(all(cfg.dominates(g.node, s_) and not _inside(mod, s_, g.node) for s_ in rec) for g, _a in atoms['count'])
+        pre = 'count' in head_ok or any(all(_after_guard(mod, cfg, g, s_) for s_ in rec) for g, _a in atoms['count'])
         if pre:
             ck.ok(rule + '.limits.first-path', mod, loop, 'num_paths tested before the first recording', 'a request for zero paths records nothing')
         else:
@@ -1524,7 +2005,7 @@ def d4_paths(ck, mod, schemes=None):
             small, strict, big = a.as_less()
             vb = classify(fi.expand(small, stop=(W,)), bound_forms)
             K = _fold_const(big)
-            placed = cfg.dominates(tps, g.node) and all(cfg.dominates(g.node, s_) and not _inside(mod, s_, g.node) for s_ in rec)
+            placed = cfg.dominates(tps, g.node) and all(_after_guard(mod, cfg, g, s_) for s_ in rec)
             if vb[0] == 'match' and ACC is not None and u(vb[1]['_A']) == ACC and T_acc is not None and u(vb[1]['_T']) == u(T_acc) \
                     and K is not None and 1 <= K <= 1 + 1e-6 and placed:
                 bound_ok = True
